@@ -173,6 +173,17 @@ Print Assumptions C02_pinned_subgroup_refuted.
 Theorem C02_subgroup_conservative :
   forall c, sg_subs c = [] -> forall pinned ic fuel st cur,
     loop_sg pinned c fuel st ic cur =
-    do m <- iterate fuel (sg_main c) (sm st) ic cur; Ok {| sm := m; ss := ss st; scnt := scnt st |}.
+    do m <- iterate fuel (sg_main c) (sm st) ic cur; Ok {| sm := m; ss := ss st; scnt := scnt st; scal := scal st |}.
 Proof. exact loop_sg_conservative. Qed.
 Print Assumptions C02_subgroup_conservative.
+
+(** The rules set on a sub-group argument itself (setIsMandatory, setCardinality):
+    a normal return implies that every mandatory sub-group argument was used and
+    that the number of uses of each satisfies its cardinality. *)
+Theorem C02_subgroup_argument_rules :
+  forall pinned c inits sub_inits argv st,
+    eval_sg pinned c inits sub_inits argv = Ok st ->
+    forall j m cd, nth_error (sg_rules c) j = Some (m, cd) -> j < length (scnt st) -> j < length (scal st) ->
+      (m = true -> nth j (scal st) false = true) /\ card_end cd (nth j (scnt st) 0%Z) = Ok tt.
+Proof. exact eval_sg_obeys_sub_rules. Qed.
+Print Assumptions C02_subgroup_argument_rules.
